@@ -220,22 +220,30 @@ def primitive_chains(depth: int) -> List[Dict[str, Any]]:
                 base = "str" if k == 0 else names[k - 1]
                 blocks.append(f'@invariant(lambda self: len(self) > {k}, "{names[k]} long")\n'
                               f"class {names[k]}({base}, DBC):\n    pass")
-            text = "\n\n\n".join(blocks) + '\n\n\n__version__ = "dummy"\n__xml_namespace__ = "https://dummy.com"\n'
-            st, why = translate(text)
-            if st is None:
-                failures.append({"meta_model": text, "clause": "accepted", "observed": why})
-                continue
-            for k in range(d):
-                c = st.must_find_constrained_primitive(names[k])  # type: ignore
-                got = [a.name for a in c.ancestors]
-                if got != names[:k] or [x.name for x in c.descendants] != names[k + 1:d]:
-                    failures.append({"meta_model": text, "clause": "ancestors-are-the-closure",
-                                     "observed": f"{names[k]}: ancestors {got}, descendants {[x.name for x in c.descendants]}"})
-                if c.constrainee is not intermediate.PrimitiveType.STR:
-                    failures.append({"meta_model": text, "clause": "constrainee", "observed": str(c.constrainee)})
-                got = [str(i.description) for i in c.invariants]
-                if got != [f"{x} long" for x in names[:k + 1]]:
-                    failures.append({"meta_model": text, "clause": "invariants-inherited-then-own", "observed": str(got)})
+            # every declaration order: the front end sorts the types itself (a child may be written before its parent)
+            for order in itertools.permutations(range(d)):
+                text = ("\n\n\n".join(blocks[i] for i in order)
+                        + '\n\n\n__version__ = "dummy"\n__xml_namespace__ = "https://dummy.com"\n')
+                st, why = translate(text)
+                if st is None:
+                    failures.append({"meta_model": text, "clause": "accepted", "observed": why})
+                    continue
+                for k in range(d):
+                    c = st.must_find_constrained_primitive(names[k])  # type: ignore
+                    got = [a.name for a in c.ancestors]
+                    desc = [x.name for x in c.descendants]
+                    # the property fixes the *sets* (closure and its inverse), not the order of these lists
+                    if (sorted(got) != sorted(names[:k]) or len(set(got)) != len(got)
+                            or sorted(desc) != sorted(names[k + 1:d]) or len(set(desc)) != len(desc)):
+                        failures.append({"meta_model": text, "clause": "ancestors-are-the-closure",
+                                         "observed": f"{names[k]}: ancestors {got}, descendants "
+                                                     f"{[x.name for x in c.descendants]}"})
+                    if c.constrainee is not intermediate.PrimitiveType.STR:
+                        failures.append({"meta_model": text, "clause": "constrainee", "observed": str(c.constrainee)})
+                    got = [str(i.description) for i in c.invariants]
+                    if got != [f"{x} long" for x in names[:k + 1]]:
+                        failures.append({"meta_model": text, "clause": "invariants-inherited-then-own",
+                                         "observed": f"{names[k]}: {got}"})
     return failures
 
 
